@@ -53,9 +53,15 @@ func (c *HTTPHealthChecker) SetRecoveryCallback(callback RecoveryCallback) {
 }
 
 func NewHTTPHealthCheckerWithDefaults(repository domain.EndpointRepository, logger logger.StyledLogger) *HTTPHealthChecker {
-	// We want to enable connection pooling and reuse with some sane defaults
-	client := &http.Client{
-		Timeout: DefaultHealthCheckerTimeout,
+	return NewHTTPHealthChecker(repository, logger, DefaultHTTPClient())
+}
+
+// DefaultHTTPClient is the client health probes are sent with: connection pooling and reuse
+// with some sane defaults. It carries no timeout of its own. Every probe runs under its
+// endpoint's check_timeout (HealthClient.performCheck), and a fixed client-wide limit below the
+// largest check_timeout the configuration accepts would mark slow but answering endpoints offline.
+func DefaultHTTPClient() *http.Client {
+	return &http.Client{
 		Transport: &http.Transport{
 			MaxIdleConns:        10,
 			MaxIdleConnsPerHost: 2,
@@ -63,7 +69,6 @@ func NewHTTPHealthCheckerWithDefaults(repository domain.EndpointRepository, logg
 			DisableKeepAlives:   false,
 		},
 	}
-	return NewHTTPHealthChecker(repository, logger, client)
 }
 
 func (c *HTTPHealthChecker) Check(ctx context.Context, endpoint *domain.Endpoint) (domain.HealthCheckResult, error) {
